@@ -3,7 +3,7 @@
  S  MC_VtFeatures: four instances of the VtParser specification (OscRawCap in {unbounded, Cap} x Utf8On) in lockstep
     over 7-bit input: identical callbacks and observationally equal states while no OSC payload exceeded the buffer;
     an oversize payload is truncated at the limit (prefix, <= Cap bytes), what follows is parsed identically.
- B  four recorder binaries built from the working tree (no features / core / utf8 / core,utf8) run the 7-bit subset of
+ B  five recorder binaries built from the working tree (no features / core / utf8 / core,utf8 / the crate's default set) run the 7-bit subset of
     the C02 generators plus OSC payloads of 1000..1100 bytes with 0..20 separators; every trace is validated by
     Trace_VtParser instantiated with that configuration's constants (OscRawCap = 1024 with `core`).
 """
@@ -14,7 +14,9 @@ from props.c02 import mk_cfg, eval_expected
 CONFIGS = [("x", [], {"OscRawCap": 0, "Utf8On": False}),
            ("xcore", ["core"], {"OscRawCap": 1024, "Utf8On": False}),
            ("xutf8", ["utf8"], {"OscRawCap": 0, "Utf8On": True}),
-           ("xcore_utf8", ["core", "utf8"], {"OscRawCap": 1024, "Utf8On": True})]
+           ("xcore_utf8", ["core", "utf8"], {"OscRawCap": 1024, "Utf8On": True}),
+           # the crate's own default feature set is the unlimited configuration with UTF-8 (the limits are opt-in)
+           ("xdefault", ["crate-default"], {"OscRawCap": 0, "Utf8On": True})]
 BASE = {"MaxParams": 32, "MaxInter": 2, "MaxOsc": 16, "ParamCap": 65535}
 
 
